@@ -61,3 +61,22 @@ package doif
 //@     pure
 //@   callee Match(b) (r)
 //@     pure
+
+// NewFieldOpNode: the length window that Check uses as its fast reject is the true
+// window of the configured values, whatever their order: every value's length is
+// within [minValLen, maxValLen] (a JSON null counts as length 0).
+
+//@ func NewFieldOpNode
+//@   option allow-exit yes
+//@   ensures result1 == nil && as(result0, "fieldOpNode").op != fieldRegexOp ==> (forall k :: 0 <= k && k < len(values) ==> as(result0, "fieldOpNode").minValLen <= len(values[k]) && len(values[k]) <= as(result0, "fieldOpNode").maxValLen)
+//@   loop 2 invariant rangeindex#2 < len(values) && fop != fieldRegexOp && (forall k :: 0 <= k && k <= rangeindex#2 ==> minValLen <= len(values[k]) && len(values[k]) <= maxValLen)
+//@   loop 2 invariant minValLen <= len(values[0]) && len(values[0]) <= maxValLen
+//@   callee maplookup:valsBySize(k) (v, ok)
+//@     ensures isnil(v) || !sameblock(v, values)
+//@   callee ParseFieldSelector(s)
+//@     pure
+//@   callee Compile(s) (r, e)
+//@     pure
+//@   callee ToLower(b) (r)
+//@     pure
+//@     ensures isnil(r) || fresh(r)
